@@ -8,10 +8,10 @@ from . import topo_common as tc
 def run(tier, seed):
     rep = Report("C07", tier, seed)
     quick = tier == "quick"
-    for sd, d in (("empty", 4 if quick else 5), ("two", 2 if quick else 3), ("svc", 2 if quick else 3)):
+    for sd, d in (("empty", 3 if quick else 5), ("two", 2 if quick else 3), ("svc", 2 if quick else 3)):
         tc.model_check(rep, "MC_FimTopology seed=" + sd, tc.consts(d if quick or sd == "empty" else d + 1, sd, "full"))
     scripts = []
-    for sd in ("two", "svc"):
+    for sd in (("svc",) if quick else ("two", "svc", "rich")):
         scripts += tc.generate(rep, "Gen_FimTopology seed=" + sd, tc.consts(3 if quick else 4, sd, "full"), workers=8 if quick else 1)
     tc.run_and_validate(rep, scripts, "tlc-generated building/removal behaviours from seeded topologies")
     # substrate flavour: explicit ids, node-level services, explicit links, composite builders
@@ -21,6 +21,6 @@ def run(tier, seed):
     tc.run_and_validate(rep, sscripts, "tlc-generated substrate-model behaviours", flavour="substrate")
     rng = random.Random(seed)
     gen = tc.RandomTopoOps(rng)
-    rs = [gen.script(45) for _ in range(150 if quick else 3000)]
+    rs = [gen.script(40) for _ in range(100 if quick else 3000)]
     tc.run_and_validate(rep, rs, "random walks over all building calls")
     return rep
